@@ -120,9 +120,13 @@ func vpC31NewPair() (*vpC31Pair, error) {
 		p.close()
 		return nil, err
 	}
-	if m.err != nil || m.msg == nil || !bytes.Equal(m.msg.Data, hello) {
+	if m.err != nil && !vpC31IsSizeVerdict(m.err) {
 		p.close()
 		return nil, vpC31Troublef("hello frame: %v", m.err)
+	}
+	if m.err != nil || m.msg == nil || !bytes.Equal(m.msg.Data, hello) {
+		p.close()
+		return nil, fmt.Errorf("first frame (%d bytes) of the connection was not delivered intact: %v", len(hello), m.err)
 	}
 	return p, nil
 }
